@@ -150,6 +150,22 @@ impl Drop for Tr {
     }
 }
 
+/// Tracked ONE-BYTE type (size 1, alignment 1, with a destructor): identities 0..=255, so they may repeat in a
+/// long array; creations and destructor runs are logged like Tr's
+#[derive(Debug)]
+pub struct Tb(pub u8);
+impl Tb {
+    pub fn new(id: i64) -> Tb {
+        push(Ev::New(id & 255));
+        Tb(id as u8)
+    }
+}
+impl Drop for Tb {
+    fn drop(&mut self) {
+        push(Ev::Drop(self.0 as i64));
+    }
+}
+
 /// Tracked zero-sized type: identities do not exist, so only the number of
 /// live values is observable.
 #[derive(Debug)]
